@@ -47,6 +47,8 @@ def execute(gi, n, X, cfg, path):
             res = S.run_full(g, tags, deps, docs_out=docs, unary_penalty=pen, pruning_size=pruning, use_beta=use_beta, beta=beta, nbest=nbest,
                              max_step=cfg.get('max_step', 10000000))
         except Exception as e:
+            if boot.harness_limit(e):
+                raise boot.HarnessError(f'the emulation of parsing.pyx cannot express what the file does: {e!r}')
             return g, derivs, None, dict(error=repr(e))
         if len(res) != X.shape[0]:
             return g, derivs, None, dict(error=f'{len(res)} result lists for {X.shape[0]} sentences')
